@@ -101,6 +101,12 @@ func (c *Ctx) sameSigner(fn *ssa.Function) {
 			det = "the use at " + c.IPos(u.at) + " is applied to a different signer value than the one at " + c.IPos(uses[0].at)
 		}
 	}
+	if !ok {
+		if at := c.accept().unfollowedCall(fn); at != "" {
+			c.R.Infof("A.same-signer", name(fn), "signer-identity", c.Pos(fn.Pos()), "not decided for this shape: the signer entries are selected through a function value the evaluator does not follow ("+at+")")
+			return
+		}
+	}
 	c.R.Check(ok, "A.same-signer", name(fn), "signer-identity", c.Pos(fn.Pos()), "identity check, content binding and signature check are applied to the same signer entry", det)
 }
 
@@ -217,6 +223,12 @@ func (c *Ctx) ruleFrozen(rule string) {
 		switch x := ir.RootOf(v).(type) {
 		case *ssa.Alloc:
 			return true
+		case *ssa.FreeVar:
+			// a function literal filling the object its enclosing function is building
+			if b := ir.FreeVarBinding(x); b != nil && fn.Parent() != nil {
+				return fresh(fn.Parent(), b, depth+1)
+			}
+			return false
 		case *ssa.Parameter:
 			if depth > 2 || fn.Object() != nil && fn.Object().Exported() {
 				return false
